@@ -129,3 +129,31 @@ Proof.
       exists ck. rewrite Hid. split; [assumption|lia].
   - inversion G as [E| |]. rewrite E in Hc'. discriminate.
 Qed.
+
+(* ================================================================== one count per decision *)
+Lemma end_answer_one_count j j2 it : end_answer false j j2 it = ensure j it.
+Proof.
+  unfold end_answer, ensure. destruct (j_ci it); [reflexivity|]. destruct (chunk_ge j (j_cid it)) as [chk|]; [|reflexivity].
+  destruct (c_id chk <? j_cid it)%N; reflexivity.
+Qed.
+
+(* the reader has read everything (its chunk iterator reported io.EOF at the end of the last chunk); the selector decides
+   "nothing left" by the journal j and answers with j's count: in a journal j2 that a flush has extended meanwhile that
+   position is still the first record not read *)
+Lemma end_answer_kept j it p c evs : sorted j -> wfj j it -> j_ci it = Some p -> find_chunk j (j_cid it) = Some c ->
+  last_chunk j = Some c -> ci_read j it = None ->
+  let j2 := jappend j (j_cid it) evs in
+  let it2 := fst (end_answer false j j2 (advance it)) in
+  jit_pos it2 = jit_pos it /\ flat j2 (jit_pos it2) = fl j it.
+Proof.
+  intros Hs Hw Hci Hf Hl He. cbn zeta. rewrite end_answer_one_count.
+  destruct (eof_at_end j it p c Hw Hci Hf He) as [Hp [Hidx Hid]].
+  assert (forall x, In x j -> (c_id x < j_cid it + 1)%N) as Hall.
+  { intros x Hx. pose proof (last_ge j Hs _ x Hl Hx). lia. }
+  unfold ensure, advance. cbn [j_ci j_cid j_idx j_bad]. rewrite (chunk_ge_last j _ Hall), Hl.
+  destruct (N.ltb_spec (c_id c) (j_cid it + 1)); [|lia]. cbn [fst].
+  assert (jit_pos (mkJit (c_id c) (cnt c) None (j_bad it)) = jit_pos it) as Hpos by (unfold jit_pos; cbn; congruence).
+  split; [exact Hpos|]. rewrite Hpos.
+  assert (j_ci it <> None) as Hopen by congruence.
+  destruct (spos_append j (j_cid it) evs _ Hs (spos_of_open j it Hs Hw Hopen)) as [_ Hflat]. exact Hflat.
+Qed.
